@@ -315,6 +315,25 @@ def load_known():
         return json.load(fh).get("findings", [])
 
 
+def _sweep_dead_workdirs():
+    """Scratch directories are named <prop>_<tier>_<pid>[suffix]; a run that was killed (timeout, OOM) leaves its
+    directory behind (tens of GB for a thorough tier).  Remove those whose process no longer exists."""
+    try:
+        names = os.listdir(WORK)
+    except OSError:
+        return
+    for n in names:
+        m = re.fullmatch(r"C\d\d_[a-z]+_(\d+)(_[a-z]+)?", n)
+        if not m:
+            continue
+        try:
+            os.kill(int(m.group(1)), 0)
+        except ProcessLookupError:
+            shutil.rmtree(os.path.join(WORK, n), ignore_errors=True)
+        except OSError:
+            pass
+
+
 class Check:
     """One run of one property check."""
 
@@ -324,6 +343,7 @@ class Check:
         self.work = os.path.join(WORK, "%s_%s_%d%s" % (prop, tier, os.getpid(), suffix))
         if os.path.exists(self.work):
             shutil.rmtree(self.work)
+        _sweep_dead_workdirs()
         os.makedirs(self.work)
         self.cov = {"states": 0, "transitions": 0, "traces_validated_against_impl": 0, "samples": [],
                     "evaluations": 0, "distinct_nontrivial": 0, "rule": "", "model_runs": [], "drift": 0}
